@@ -55,6 +55,23 @@ class Vocab:
         if not allow_dot:
             self.names = [n for n in self.names if "." not in n]
         self.alias_names = set(model.alias)
+        # the configuration's own file-name separator(s): literal text between two placeholders of a file name
+        import re as _re
+        seps = set()
+        for pt in model.path[model.default_config]["templates"]:
+            tail = pt.template.rpartition("/")[2]
+            for lit in _re.findall(r"\}([^{}/.]+)\{", tail):
+                seps.add(lit)
+        self.seps = sorted(seps) or ["_"]
+        # values where one is the other plus the separator: what file-name globbing can confuse
+        self.pair_names = ["rig", "x"] + ["rig%sb" % sp for sp in self.seps] + ["x%sy" % sp for sp in self.seps]
+
+    def file_name_only(self, type_name, key):
+        pt = self.m.path[self.m.default_config]["by_type"].get(type_name)
+        if pt is None:
+            return False
+        head, _, tail = pt.template.rpartition("/")
+        return ("{" + key) in tail and ("{" + key) not in head
 
     def values(self, type_name, key):
         v = self.m.vocab(type_name, key)
@@ -64,6 +81,8 @@ class Vocab:
             pre, width = v[1], v[2]
             return [pre + str(n).zfill(width) for n in VERSION_NUMS if len(str(n)) <= width]
         if v[0] == "free":
+            if self.file_name_only(type_name, key):
+                return self.pair_names + self.names[:3]   # few values, mostly separator pairs
             return list(self.names)
         return None
 
